@@ -49,6 +49,13 @@ func StripHostPort(h string) string {
 		return strings.TrimSuffix(h, ".")
 	}
 
+	// A bracketed IPv6 literal without port (e.g. "[::1]") and an unbracketed one (e.g. "::1", more than one colon) are
+	// returned unchanged, as on the error path below, but without going through net.SplitHostPort, which would
+	// allocate an error for them on every request.
+	if h[0] == '[' && h[len(h)-1] == ']' || h[0] != '[' && strings.Count(h, ":") > 1 {
+		return h
+	}
+
 	host, _, err := net.SplitHostPort(h)
 	if err != nil {
 		return h // on error, return unchanged
